@@ -442,6 +442,10 @@ func (r *runner) apply(o hop) bool {
 		mi, ma, mv := r.d.HeadTimes()
 		omi, oma := r.d.HeadOOOTimes()
 		fmt.Fprintf(os.Stderr, "%-16s head=[%d,%d] minValid=%d ooo=[%d,%d] blocks=%v\n", opNames[o.Kind], mi, ma, mv, omi, oma, r.d.Blocks())
+		for _, hs := range r.d.HeadDump() {
+			fmt.Fprintf(os.Stderr, "      %s ref=%d io=%v ooo=%v\n", hs.Labels, hs.Ref, hs.InOrder, hs.OOO)
+		}
+		fmt.Fprintf(os.Stderr, "      logs=%v\n", r.d.Logs())
 	}
 	r.classes["op-"+opNames[o.Kind]]++
 	r.descs = append(r.descs, d)
